@@ -107,20 +107,24 @@ Section World.
     w <- get ;;
     set_objs (notify_all (o_update I (filt w) (core w) x) (subs w)).
 
+  (** [if machine_id is None: machine_id = operation.machine_id] *)
+  Definition resolve_machine (o : op) (rm : option Z) : M Z :=
+    match rm with
+    | Some m => ret m
+    | None => match machines o with
+              | [] => raise EIndex
+              | [m] => ret (Z.of_nat m)
+              | _ => raise EUninit
+              end
+    end.
+
   Definition dispatch (I : instance) (r : request) : M unit :=
     o <- of_opt (get_op I (r_job r) (r_pos r)) EOther ;;
     w <- get ;;
     (* is_operation_ready *)
     (if (nthN (jnext (core w)) (r_job r) =? r_pos r)%nat then ret tt else raise EValidation) ;;;
     (* machine_id defaulting: Operation.machine_id *)
-    m <- (match r_mach r with
-          | Some m => ret m
-          | None => match machines o with
-                    | [] => raise EIndex
-                    | [m] => ret (Z.of_nat m)
-                    | _ => raise EUninit
-                    end
-          end) ;;
+    m <- resolve_machine o (r_mach r) ;;
     (* start_time: Python subscript on the machine vector *)
     mi <- of_opt (py_index (length (mfree (core w))) m) EIndex ;;
     let st := Z.max (nthZ (mfree (core w)) mi) (nthZ (jfree (core w)) (r_job r)) in
